@@ -161,7 +161,8 @@ def main():
     groups = {}
     for fl in unexplained:
         groups.setdefault(fl['what'], []).append(fl)
-    for what, fls in groups.items():
+    for gi, (what, fls) in enumerate(groups.items()):
+        if gi >= 12: break          # at most 12 distinct kinds are written out; the evidence counts all
         fl = fls[0]
         if hasattr(mod, 'shrink'):
             try: fl = mod.shrink(fl)
